@@ -143,5 +143,26 @@ theorem announceToDown_spec (num : Nat) (c : Ctx) :
         obtain ⟨d', b, h1, h2, h3⟩ := hall e he'
         exact ⟨d', b, h1, h2, by rw [← hs]; exact h3⟩⟩
 
+/-- `gossip` only appends datagrams (to listed active members); identity, incarnation, connection state,
+    token, members and configuration are untouched. Implication form, convenient after `split`. -/
+theorem gossip_ok {c c' : Ctx} {u : Unit} (h : gossip E c = .ok u c') :
+    OnlyBacklogs c.s c'.s ∧ ∃ new, c'.eff = c.eff ++ new ∧
+      ∀ e ∈ new, ∃ d b, e = Effect.send d b ∧ ∃ m ∈ c.s.ms, m.id = d ∧ m.active = true := by
+  unfold gossip at h
+  simp only [bind_run, getS_run] at h
+  have hs := chooseAndSend_spec E c.s.cfg.k .gossip c
+  rw [h] at hs
+  obtain ⟨hob, new, heff, hall⟩ := hs
+  exact ⟨hob, new, heff, fun e he => by
+    obtain ⟨d, b, h1, h2, _⟩ := hall e he
+    exact ⟨d, b, h1, h2⟩⟩
+
+theorem gossip_err {c c' : Ctx} {k : ErrKind} (h : gossip E c = .err k c') : k = .encode := by
+  unfold gossip at h
+  simp only [bind_run, getS_run] at h
+  have hs := chooseAndSend_spec E c.s.cfg.k .gossip c
+  rw [h] at hs
+  exact hs.1
+
 end
 end Foca
